@@ -484,7 +484,19 @@ func (l *c18Life) Step(a int) bool {
 			return false
 		}
 		if l.mustResume && l.fresh {
-			return false // an existing upload must be resumed before more data is written
+			// a stream opened on a suspended upload and written to without Resume is a caller error; whatever it reports,
+			// it does not damage the suspended upload, and aborting it removes nothing but its own traces
+			before := c18Dump(w)
+			_, e1 := l.stream.Write(l.content[:3])
+			_, e2 := l.stream.Write(l.content[:3])
+			e3 := l.stream.Abort()
+			l.trace = append(l.trace, fmt.Sprintf("write+write+abort on the un-resumed stream=(%v,%v,%v)", e1 != nil, e2 != nil, e3 != nil))
+			l.stream = nil
+			if after := c18Dump(w); after != before {
+				l.viol("unresumed-stream-damages-suspended-upload", "writing to and aborting a second stream on a suspended upload changed the bucket:\n"+firstDiff(before, after))
+				return false
+			}
+			break
 		}
 		m, err := l.stream.Write(l.content[l.off : l.off+n])
 		l.trace = append(l.trace, fmt.Sprintf("%s=(%d,%v)", name, m, err))
